@@ -375,6 +375,7 @@ def step (w : World) (j : Json) : World × List String :=
     (w.set node n', [l])
   | "bits" => (w, [bitsOp j])
   | "wire" => (w, [wireOp j])
+  | "url" => (w, ["url " ++ Wire.renderSl (jStr j "raw") (jStr j "issuer") (jNat j "page")])
   -- second harness (vcr/verifier): node 1 is the verifier
   | "vreset" => ({ a := { base := bases[0]! }, b := { base := "https://verifier.example" } }, ["vreset"])
   | "vregister" =>
